@@ -881,8 +881,8 @@ def s_layouts(draw):
 
 def o_layouts(case, T):
     """'for every chunking of source and destination': the non-spatial axes are chunked too.  Time before, bands after
-    (or before) the spatial axes, dask blocks that hold several time steps *and* several bands; pixel-aligned grids,
-    so nearest-neighbour values are unambiguous and the chunked result must equal the in-memory one bit for bit."""
+    (or before) the spatial axes, dask blocks that hold several time steps *and* several bands; the chunked result
+    must equal the in-memory one bit for bit at every pixel whose nearest neighbour is defined."""
     import dask.array as da
     import xarray as xr
 
@@ -919,7 +919,14 @@ def o_layouts(case, T):
     chunked = _compute(xr_reproject(xx_da, dg, **kw_da), case["sched"])
     require(whole.dims == chunked.dims and whole.shape == chunked.shape, "layout %s: in-memory result has dims %r shape %r, chunked %r %r", lay, whole.dims, whole.shape, chunked.dims, chunked.shape)
     w, c = whole.values, chunked.values
-    same = _same(w, c)
+    # mirrored grids are drawn with scales 1/2, 1/3, 3/2 too: a destination pixel centre that sits on a source pixel
+    # edge has no defined nearest neighbour (same rule as in o_same_crs), everything else is compared bit for bit
+    xs, ys, _ = _src_coords_same_crs(case)
+    amb2 = (np.abs(xs - np.round(xs)) <= AMBIG) | (np.abs(ys - np.round(ys)) <= AMBIG)
+    if amb2.any():
+        T.exclude("ambiguous_pixels", int(amb2.sum()))
+    amb = np.broadcast_to(amb2.reshape(tuple(amb2.shape[(ydim, xdim).index(d)] if d in (ydim, xdim) else 1 for d in whole.dims)), w.shape)
+    same = _same(w, c) | amb
     if not same.all():
         idx = _where(~same, 1)[0]
         raise Violation("layout %s (%r, chunks time %r band %r): %d value(s) differ between the chunked and the in-memory result, e.g. at %r: chunked %r, in memory %r (dtype %s, src chunks %r, dst chunks %r)"
